@@ -10,6 +10,8 @@ PROPS = {
     "C03": {"coq": "Properties/C03.v", "gens": ["C03"]},
     "C04": {"coq": "Properties/C04.v", "gens": ["C04"]},
     "C05": {"coq": "Properties/C05.v", "gens": ["C05"]},
+    "C06": {"coq": "Properties/C06.v", "gens": ["C06"], "trusted_base": CRYPTO_TB},
+    "C07": {"coq": "Properties/C07.v", "gens": ["C07"], "trusted_base": CRYPTO_TB, "bins": True},
     "C08": {"coq": "Properties/C08.v", "gens": ["C08"], "trusted_base": CRYPTO_TB},
     "C09": {"coq": "Properties/C09.v", "gens": ["C09"], "trusted_base": CRYPTO_TB},
     "C11": {"coq": "Properties/C11.v", "gens": ["C11"]},
